@@ -155,7 +155,29 @@ class World:
             self.pool.append({'kind': 'itx', 'obj': s, 'model': copy.deepcopy(m)})
         elif k == 'copy':
             e = self.pick(op[1])
-            c = CMutableTransaction.from_tx(e['obj'])
+            how = op[2] if len(op) > 2 else 'from_tx'
+            if how == 'deepcopy':
+                try:
+                    c = copy.deepcopy(e['obj'])          # the standard library's way of taking an independent copy
+                except Exception:
+                    return                              # (immutable parts refuse reconstruction: then no copy was taken)
+                if type(c) is not type(e['obj']):
+                    raise Violation('copy/deepcopy-type', 'deepcopy of %s gives %s' % (type(e['obj']).__name__, type(c).__name__))
+                if e['kind'] != 'mtx':
+                    self.pool.append({'kind': 'itx', 'obj': c, 'model': copy.deepcopy(e['model'])})
+                    return
+            elif how == 'pickle':
+                import pickle
+                try:
+                    c = pickle.loads(pickle.dumps(e['obj']))
+                except Exception:
+                    return                              # objects that cannot be pickled are not copies of anything
+                if type(c) is not type(e['obj']):
+                    raise Violation('copy/pickle-type', 'pickle round trip of %s gives %s' % (type(e['obj']).__name__, type(c).__name__))
+                self.pool.append({'kind': e['kind'], 'obj': c, 'model': copy.deepcopy(e['model'])})
+                return
+            else:
+                c = CMutableTransaction.from_tx(e['obj'])
             self.pool.append({'kind': 'mtx', 'obj': c, 'model': copy.deepcopy(e['model'])})
         elif k == 'part':
             e = self.pick(op[1])
@@ -494,9 +516,9 @@ def machine_factory(ctx):
         def snap(self, t, how):
             self.do(['snap', t, how])
 
-        @rule(t=idx)
-        def mcopy(self, t):
-            self.do(['copy', t])
+        @rule(t=idx, how=st.sampled_from(['from_tx', 'from_tx', 'deepcopy', 'pickle']))
+        def mcopy(self, t, how):
+            self.do(['copy', t, how])
 
         @rule(t=idx, what=st.sampled_from(['in', 'outpoint', 'out']), mut=st.booleans(), i=idx)
         def part(self, t, what, mut, i):
@@ -551,7 +573,7 @@ OUT_A = [9, '52']
 CATALOGUE = [['set', 0, 'version', 2], ['set', 0, 'locktime', 7], ['in_set', 0, 0, 'n', 3], ['in_set', 0, 0, 'hash', 'bb' * 32],
              ['in_set', 0, 0, 'seq', 4], ['in_set', 0, 0, 'script', '5152'], ['out_set', 0, 0, 'value', 8], ['out_set', 0, 0, 'script', '53'],
              ['in_add', 0, IN_A], ['in_del', 0, 0], ['out_add', 0, OUT_A], ['out_del', 0, 0], ['wit', 0, [['77']]], ['wit', 0, None],
-             ['snap', 0, 'from_tx'], ['snap', 0, 'ctor'], ['snap', 0, 'ctor-tuple'], ['copy', 0], ['copy', 1], ['ids', 0], ['ids', 1], ['sighash', 0, 0, 3],
+             ['snap', 0, 'from_tx'], ['snap', 0, 'ctor'], ['snap', 0, 'ctor-tuple'], ['copy', 0], ['copy', 1], ['copy', 0, 'deepcopy'], ['copy', 1, 'deepcopy'], ['copy', 0, 'pickle'], ['ids', 0], ['ids', 1], ['sighash', 0, 0, 3],
              ['bip143', 0, 0, 1], ['block', [0], 5], ['in_set', 1, 0, 'n', 6], ['part', 0, 'in', True, 0], ['part_edit', 0, 6],
              ['in_set', 0, 0, 'prevout', ['cc' * 32, 2]], ['part', 0, 'out', False, 0], ['part_copy', 0, True], ['part_copy', 1, False]]
 
